@@ -87,7 +87,7 @@ Proof.
   set (st1 := fst (step beh st (Move p))) in *.
   set (v1 := vt_bytes cfg v (obytes beh st (Move p))) in *.
   (* the write: optional default attribute, then write_element *)
-  assert (Hwf : wf_op st1 (WElem e)) by exact He.
+  assert (Hwf : wf_op st1 (WElem e)) by (cbn [wf_op]; apply wf_elem_wf_elem_c; exact He).
   rewrite (step_bytes cfg beh Huni st1 v1 (WElem e) S1 Hwf). cbn [step].
   pose proof (sync_oda cfg beh st1 v1 S1) as Ho. cbv zeta in Ho.
   destruct Ho as (S2 & Hl2 & Ht2 & _ & Hc2 & _ & _ & Hcur2 & Hs2).
